@@ -16,7 +16,9 @@ from .. import core, fixtures
 
 LEVEL = "model_checking"
 
-ADDRS = [UDPv4Address("1.1.1.1", 1001), UDPv4Address("2.2.2.2", 2002), UDPv6Address("::3", 3003)]
+# the IPv6 address is an IPv4-mapped one: its textual form is the one most likely to change across codecs, and the
+# snapshot oracle compares decoded addresses with these objects
+ADDRS = [UDPv4Address("1.1.1.1", 1001), UDPv4Address("2.2.2.2", 2002), UDPv6Address("::ffff:10.0.0.3", 3003)]
 SERVICES = [b"\x01" * 20, b"\x02" * 20]
 
 
